@@ -2,6 +2,7 @@
 from common import coq_options, HOOKS
 
 ID = "C20"
+ENV_RERUN = 40          # cases repeated from a cargo build-script environment (lib/runner.py with_build_env)
 REQUIRES = ["Wf", "C20Spec"]
 THEOREM_REQUIRES = ["C20"]
 THEOREMS = ["C20_stage_walks", "C20_type_visits", "C20_holds_bool"]
